@@ -69,10 +69,9 @@ DefaultsKnown(M) == UnknownDefaults(M) = {}
 
 DependsOn(M) == {pr \in EdgeIds(M) \X EdgeIds(M) : Ins(M, pr[1]) \cap Outs(M, pr[2]) # {}}
 RECURSIVE TC(_)
-TC(R) == LET R2 == R \cup {pr \in {<<a[1], b[2]>> : a \in R, b \in R} :
-                              \E a \in R, b \in R : a[2] = b[1] /\ pr = <<a[1], b[2]>>}
+TC(R) == LET R2 == R \cup {<<pr[1][1], pr[2][2]>> : pr \in {q \in R \X R : q[1][2] = q[2][1]}}
          IN IF R2 = R THEN R ELSE TC(R2)
-Acyclic(M) == \A e \in EdgeIds(M) : <<e, e>> \notin TC(DependsOn(M))
+Acyclic(M) == LET C == TC(DependsOn(M)) IN \A e \in EdgeIds(M) : <<e, e>> \notin C
 
 (* ---- the behavioural form: ninja's scheduling rule -------------------- *)
 
